@@ -34,7 +34,9 @@ NAME_POOL = ['a', 'b', 'x', 'f', 'g', 'имя', '_t', 'k2', 'notx', 'in1', 'True
              'ª', 'µm', 'x²' if False else 'x2', 'ℌ', 'e3', 'E',
              # letters that Unicode normalisation rewrites (NFC: OHM SIGN, KELVIN SIGN, ANGSTROM SIGN; NFKC: fullwidth, ligature): the name asked for is the name as written
              '\u2126m', '\u212a', '\u212bx', '\uff58', '\ufb01t', '%\u2126 \u212b%']
-STR_POOL = ['"s"', "'q'", 'r"\\d+"', '"a\\"b"', '""', "'x y'", '"%z%"', '"# no comment"', "'name'", '"a b c"', "r'x'", '"for x in y"', '"1 + nope"']
+STR_POOL = ['"s"', "'q'", 'r"\\d+"', '"a\\"b"', '""', "'x y'", '"%z%"', '"# no comment"', "'name'", '"a b c"', "r'x'", '"for x in y"', '"1 + nope"',
+            # text that looks like a template (names inside a string literal are text, not identifiers)
+            '"{tpl_a} and {0}"', '"%(tpl_b)s"', '"$tpl_c ${tpl_d}"', "'#{tpl_e} {{tpl_f}}'", '"{x} {nope_in_string}"']
 NUM_POOL = ['1', '2.5', '0', '007', '10.50']
 TWO_CHAR_OPS = {'==', '!=', '>=', '<=', '=>', '**', '+=', '-=', '*=', '/='}
 WORD = ('NAME', 'NUMBER', 'AND', 'OR', 'IN', 'NOT', 'IF', 'ELSE', 'TRUE', 'FALSE', 'NONE', 'DEL', 'FOR', 'WHILE', 'BREAK', 'CONTINUE', 'DEF', 'RAISE', 'ELIF')
@@ -100,7 +102,7 @@ def setup(ctx):
     from smartquery import functions
     ctx.P = ctx.P_plain = SqParser()
     ctx.P_cache = SqParser(parse_cache=gram.ToggleCache())       # a parser whose host cache can refuse a store (see gram.earlier_call)
-    ctx.fn_names = sorted(functions.FUNCTIONS)
+    ctx.fn_names = sorted(set(functions.FUNCTIONS) | set(gram.table_names()))
     new = [n for n in ctx.fn_names if n not in gram.PINNED_TABLE and n not in NAME_POOL]
     NAME_POOL.extend(new * 3)
     gram.use_table_names(ctx.fn_names)
@@ -119,6 +121,12 @@ def cases(ctx):
         yield ('cgf', rnd.getrandbits(30), ctx.scale(6, 150))
         return
     yield ('cgf', rnd.getrandbits(30), ctx.scale(6, 150))          # coverage-guided texts, one fuzzing process per worker
+    # entries of the function table that the pinned table does not have, called with plain data and with strings that look like templates / code
+    if ctx.shard == 0:
+        for name in [n for n in ctx.fn_names if n not in gram.PINNED_TABLE]:
+            for args in ('"{x} {nope_in_string}"', '"%(tpl_b)s", 1', 'x, "{tpl_a} and {0}"', '"$tpl_c", a, b', '"1 + nope"', 'b, "never_mentioned"', '"never_mentioned"', 'k2, "r"'):
+                yield ('evaltext', '%s(%s)' % (name, args))
+                yield ('evaltext', 'a | %s(%s)' % (name, args))
     for _ in range(ctx.scale(12000, 150000)):
         yield ('gen', rnd.getrandbits(48))
 
@@ -245,8 +253,28 @@ def case_deadline(case):
     return case[2] + 200 if case[0] == 'cgf' else CASE_DEADLINE
 
 
+def run_evaltext(case, ctx):
+    """a given text evaluated with the recording names mapping: every name the host is asked for is an identifier of the text (or an implicit one)"""
+    text = case[1]
+    try:
+        truth = list(ctx.P_plain.list_names(text))
+    except Exception:
+        return
+    rec = Recording({'a': 1, 'b': [1, 2, 3], 'x': 'abc', 'f': lambda *a: a[0] if a else None, 'k2': {'k': 1}, 'r': 3, 'never_mentioned': 0})
+    try:
+        ctx.P_plain.eval(text, rec, None, 300)
+    except Exception:
+        pass
+    ctx.count('given_texts_evaluated_with_a_recording_names_mapping')
+    extra = [k for k in rec.asked if k not in set(truth) | IMPLICIT]
+    if extra:
+        ctx.violation('evaluation asked the host for a name that list_names does not report', case, detail={'text': text, 'asked': sorted(set(map(str, extra)))[:10], 'list_names': truth})
+
+
 def run_case(case, ctx):
     from smartquery.exceptions import ParserError
+    if case[0] == 'evaltext':
+        return run_evaltext(case, ctx)
     if case[0] == 'cgf':
         return run_cgf(case, ctx)
     if case[0] == 'text':
